@@ -76,14 +76,30 @@ var probeVersions = []primitive.ProtocolVersion{primitive.ProtocolVersion3, prim
 
 var tokSeq int64
 
+// freeAddr picks a listen address for --bind OUTSIDE the kernel's ephemeral port range, so that no
+// outgoing connection of this machine can take the port between the probe and the proxy's bind.
+var portSeq int64
+
 func freeAddr() (string, error) {
-	l, err := net.Listen("tcp", "127.0.0.1:0")
-	if err != nil {
-		return "", err
+	lo, hi := 10000, 30000
+	if b, err := os.ReadFile("/proc/sys/net/ipv4/ip_local_port_range"); err == nil {
+		var a, z int
+		if n, _ := fmt.Sscan(string(b), &a, &z); n == 2 && a > 12000 {
+			hi = a - 1
+		}
 	}
-	a := l.Addr().String()
-	l.Close()
-	return a, nil
+	for try := 0; try < 2000; try++ {
+		n := int(atomic.AddInt64(&portSeq, 1))
+		port := lo + (os.Getpid()*131+n*7)%(hi-lo)
+		a := fmt.Sprintf("127.0.0.1:%d", port)
+		l, err := net.Listen("tcp", a)
+		if err != nil {
+			continue
+		}
+		l.Close()
+		return a, nil
+	}
+	return "", fmt.Errorf("no free port for --bind")
 }
 
 func canDial(addr string) bool {
